@@ -232,17 +232,25 @@ func (cl *tmxClient) chunks() []tmxChunk {
 func (cl *tmxClient) typeKeys(s string) {
 	switch cl.mode {
 	case "control":
-		// iTerm2's tmux integration: ASCII keys as hex codes (`send -t %N 0x..`), other text literally
+		// iTerm2's tmux integration: letters and digits literally (`send -lt %N abc`), other ASCII keys as hex codes (`send -t %N 0x..`), other text literally
 		// (`send -lt %N text`), every command line ended by CR
 		b := []byte(s)
+		class := func(c byte) int {
+			switch {
+			case c >= 0x80:
+				return 2 // literal text
+			case c >= '0' && c <= '9' || c >= 'A' && c <= 'Z' || c >= 'a' && c <= 'z':
+				return 1 // literal keys
+			}
+			return 0 // hex codes
+		}
 		for len(b) > 0 {
-			n := 0
-			ascii := b[0] < 0x80
-			for n < len(b) && (b[n] < 0x80) == ascii {
+			n, k := 0, class(b[0])
+			for n < len(b) && class(b[n]) == k {
 				n++
 			}
 			var sb strings.Builder
-			if ascii {
+			if k == 0 {
 				sb.WriteString("send -t " + cl.paneID)
 				for _, c := range b[:n] {
 					fmt.Fprintf(&sb, " 0x%x", c)
@@ -273,14 +281,20 @@ func (cl *tmxClient) close() {
 		cl.cliIn.Close()
 	}
 	if cl.cmd != nil && cl.cmd.Process != nil {
-		cl.cmd.Process.Signal(syscall.SIGHUP)
 		done := make(chan struct{})
 		go func() { cl.cmd.Wait(); close(done) }()
+		// the polite way first (the client was detached by the caller): `tmux attach` ends, and with it the trzsz
+		// binary around it, by returning from main
 		select {
 		case <-done:
-		case <-time.After(2 * time.Second):
-			cl.cmd.Process.Kill()
-			<-done
+		case <-time.After(1500 * time.Millisecond):
+			cl.cmd.Process.Signal(syscall.SIGHUP)
+			select {
+			case <-done:
+			case <-time.After(2 * time.Second):
+				cl.cmd.Process.Kill()
+				<-done
+			}
 		}
 	}
 	if cl.ptmx != nil {
@@ -927,7 +941,10 @@ func tmxRun(root string, idx int, sc *tmxScn) (res *tmxResult) {
 		res.err = "attach failed: " + err.Error()
 		return
 	}
-	defer cl.close()
+	defer func() {
+		srv.run("detach-client", "-s", "main")
+		cl.close()
+	}()
 	r := &tmxRunner{scn: sc, srv: srv, cl: cl, dir: dir, prompt: tmxPrompt, rng: rand.New(rand.NewSource(sc.seed)), other: otherPane}
 	if !tmxWait(10*time.Second, 20*time.Millisecond, func() bool {
 		out, _ := srv.run("list-clients", "-F", "#{client_tty}")
@@ -1035,8 +1052,8 @@ func tmxScenarios(c *ctx) []*tmxScn {
 	add("r-narrow", "relay", func(s *tmxScn) { s.narrow = 34; s.sync = true }, down("medium", "ok", true), up("flat", "ok", true))
 	add("r-binary", "relay", nil, down("flat", "ok", true, "-b"), up("flat", "ok", true, "-b"))
 	add("r-stop", "relay", nil, up("big", "stop-api", false), down("one", "ok", true))
-	add("c-up", "control", nil, up("flat", "ok", false, "-y"), down("flat", "ok", false))
-	add("c-stop", "control", nil, up("big", "stop-key", false), down("one", "ok", false))
+	add("c-up", "control", nil, up("flat", "ok", false, "-y"), down("flat", "ok", false, "-b"))
+	add("c-stop", "control", nil, up("big", "stop-delete", false), down("one", "ok", false))
 	add("b-down", "binary", nil, down("flat", "ok", false), up("flat", "ok", false))
 	if c.thorough() {
 		// the fault-free scenarios again, several times, with other terminal sizes, pane widths, trees and options
